@@ -17,7 +17,7 @@ func init() { Registry["C05"] = C05 }
 func storeRMW(fn *ssa.Function) (queries []ssa.CallInstruction, updates []ssa.CallInstruction) {
 	qs := core.CallsTo(fn, storagePkg+".Store.QueryId")
 	for _, u := range core.CallsTo(fn, storagePkg+".Store.Update") {
-		arg := core.CallArgs(u)[0]
+		arg := core.Arg(u, 0)
 		for _, q := range qs {
 			if core.DependsOn(arg, func(v ssa.Value) bool {
 				if v == q.(ssa.Value) {
@@ -135,7 +135,7 @@ func C05(p *core.Program, r *core.Report) {
 		nDel++
 		fn := cs.Parent()
 		conds := core.DominatingConds(cs.Block())
-		reason, isC := core.ConstInt(core.CallArgs(cs)[1])
+		reason, isC := core.ConstInt(core.Arg(cs, 1))
 		key := fmt.Sprintf("release-for-cause/%s/bundleDeletion(reason=%d)", fname(fn), reason)
 		rule := "a bundle is deleted only for cause: hop limit exceeded, lifetime over, unsupported block demanding deletion, foreign source, unusable administrative record"
 		ok := false
@@ -267,18 +267,18 @@ func C05(p *core.Program, r *core.Report) {
 		case "pkg/routing.BundleDescriptor.PurgeConstraints":
 			r.OK(key, rule, p.Pos(cs.Pos()), "")
 		case "pkg/routing.Core.forward":
-			k, _ := core.ConstInt(core.CallArgs(cs)[0])
+			k, _ := core.ConstInt(core.Arg(cs, 0))
 			okAdd := core.MustPassBefore(cs, func(i ssa.Instruction) bool {
 				c, ok := i.(ssa.CallInstruction)
 				if !ok || !core.NameIs(core.CalleeName(c), routingPkg+".BundleDescriptor.AddConstraint") {
 					return false
 				}
-				v, _ := core.ConstInt(core.CallArgs(c)[0])
+				v, _ := core.ConstInt(core.Arg(c, 0))
 				return v == constVal(p, routingPkg, "ForwardPending")
 			})
 			r.Check(k == constVal(p, routingPkg, "DispatchPending") && okAdd, key, rule, p.Pos(cs.Pos()), "", "forward removes another constraint or does not add ForwardPending first")
 		case "pkg/routing.AgentManager.Deliver":
-			k, _ := core.ConstInt(core.CallArgs(cs)[0])
+			k, _ := core.ConstInt(core.Arg(cs, 0))
 			_, g := callGuard(core.DominatingConds(cs.Block()), routingPkg+".AgentManager.HasEndpoint", true)
 			r.Check(k == constVal(p, routingPkg, "LocalEndpoint") && g, key, rule, p.Pos(cs.Pos()), "", "Deliver removes another constraint or without a registered agent")
 		default:
@@ -304,7 +304,7 @@ func C05(p *core.Program, r *core.Report) {
 	bc := p.Func(routingPkg, "Core", "bundleContraindicated")
 	okBC := false
 	for _, a := range core.CallsTo(bc, routingPkg+".BundleDescriptor.AddConstraint") {
-		if k, _ := core.ConstInt(core.CallArgs(a)[0]); k == constVal(p, routingPkg, "Contraindicated") {
+		if k, _ := core.ConstInt(core.Arg(a, 0)); k == constVal(p, routingPkg, "Contraindicated") {
 			if ok, _ := core.MustPassAfter(a, func(i ssa.Instruction) bool {
 				c, isC := i.(ssa.CallInstruction)
 				return isC && core.NameIs(core.CalleeName(c), routingPkg+".BundleDescriptor.Sync")
@@ -328,7 +328,7 @@ func C05(p *core.Program, r *core.Report) {
 		for _, root := range append([]ssa.Value{st.Val}, core.ControlConds(st.Val)...) {
 			core.DependsOn(root, func(v ssa.Value) bool {
 				if c, ok := v.(*ssa.Call); ok && core.NameIs(core.CalleeName(c), routingPkg+".BundleDescriptor.HasConstraint") {
-					if k, ok := core.ConstInt(core.CallArgs(c)[0]); ok {
+					if k, ok := core.ConstInt(core.Arg(c, 0)); ok {
 						seen[k] = true
 					}
 				}
@@ -364,7 +364,7 @@ func C05(p *core.Program, r *core.Report) {
 	da := p.Func(routingPkg, "EpidemicRouting", "DispatchingAllowed")
 	okDA := false
 	for _, a := range core.CallsTo(da, routingPkg+".BundleDescriptor.AddConstraint") {
-		if k, _ := core.ConstInt(core.CallArgs(a)[0]); k == constVal(p, routingPkg, "Contraindicated") {
+		if k, _ := core.ConstInt(core.Arg(a, 0)); k == constVal(p, routingPkg, "Contraindicated") {
 			okSync, _ := core.MustPassAfter(a, func(i ssa.Instruction) bool {
 				c, isC := i.(ssa.CallInstruction)
 				return isC && core.NameIs(core.CalleeName(c), routingPkg+".BundleDescriptor.Sync")
@@ -394,7 +394,7 @@ func C05(p *core.Program, r *core.Report) {
 	newCore := p.Func(routingPkg, "", "NewCore")
 	okReg := false
 	for _, c := range core.CallsTo(newCore, routingPkg+".Cron.Register") {
-		if mc, ok := core.CallArgs(c)[1].(*ssa.MakeClosure); ok {
+		if mc, ok := core.Arg(c, 1).(*ssa.MakeClosure); ok {
 			if f, ok := mc.Fn.(*ssa.Function); ok && strings.Contains(f.Name(), "checkPendingBundles") {
 				okReg = true
 			}
@@ -403,7 +403,7 @@ func C05(p *core.Program, r *core.Report) {
 	r.Check(okReg, "retry-wiring/"+fname(newCore)+"/cron", "checkPendingBundles is registered with the cron", p.Pos(newCore.Pos()), "", "no Cron.Register(…, c.checkPendingBundles, …)")
 	okClean := false
 	for _, c := range core.CallsTo(newCore, routingPkg+".Cron.Register") {
-		if mc, ok := core.CallArgs(c)[1].(*ssa.MakeClosure); ok {
+		if mc, ok := core.Arg(c, 1).(*ssa.MakeClosure); ok {
 			if f, ok := mc.Fn.(*ssa.Function); ok && strings.Contains(f.Name(), "DeleteExpired") {
 				okClean = true
 			}
